@@ -27,6 +27,11 @@ PROBES = [
     ('quotes at eol', HDR2, "data_b\n_a 'q'\n_b \"r\"\n_c '''s'''\n_d 't'\n"),
     ('cif1 quotes', HDR1, "data_b\n_a 'it's'\n_b [x]\n_c {y}\n_d\n;\\\nnot\\\nfolded\n;\n"),
     ('cif1 no magic', '', "data_b\n_a 'a'b'\n_b 2\n"),
+    # the input begins with a line terminator; a byte-order mark precedes the version comment (the version is then decided
+    # only after a first read)
+    ('leading blank line', '', '\ndata_b\n_a 1\n_t\n;x\ny\n;\n_b 2\n'),
+    ('leading blank lines', '', '\n\n\ndata_b\n_a\n;x\n\ny\n;\n'),
+    ('bom', '\ufeff' + HDR2, 'data_b\n_a 1\n_t\n;x\ny\n;\n_b \u00e9\n'),
     # defect probes: error codes and lines must be alignment independent too
     ('err missing value', HDR2, 'data_b\n_a\n_b 2\n'),
     ('err missing endquote', HDR2, "data_b\n_a 'abc\n_b 2\n"),
